@@ -287,6 +287,10 @@ def scan(abbr, typ, which, seed):
             if nocache and typ == 'stylesheet':
                 c['_cache'] = False
             out.append((r[0], abbr, c, r[1]))
+            if str(r[0]).startswith('Timeout') and sum(1 for o in out if str(o[0]).startswith('Timeout')) >= 2:
+                # the call does not return under two configurations already: the other configurations of this
+                # abbreviation are not tried (each would cost the full time-out)
+                break
     return len(cfgs), out
 
 
@@ -295,11 +299,17 @@ def _worker(job):
     n = 0
     found = []
     hashes = []
+    timeouts = 0
     for a in abbrs:
         hashes.append(hash((typ, a)))
         k, out = scan(a, typ, which, seed)
         n += k
         found.extend(out)
+        timeouts += sum(1 for o in out if str(o[0]).startswith('Timeout'))
+        if timeouts >= 3:
+            # three calls of this chunk did not return: the rest of the chunk is not run (drive() stops the clause
+            # once enough of them are collected); cannot happen on a tree where expand() terminates
+            break
     return n, hashes, found
 
 
@@ -329,6 +339,12 @@ def drive(clause, typ, which, abbrs, seed=0, chunk=400):
                 cand = ((len(cfg), cfg.get('syntax') not in ('html', 'css'), len(cj)), cj, detail)
                 if abbr not in per or cand < per[abbr]:
                     per[abbr] = cand
+            if sum(v for k_, v in counts.items() if k_.startswith('Timeout')) >= 40:
+                # every further non-terminating call costs TIMEOUT seconds of CPU: the clause is decided (40 calls that
+                # do not return), the remaining cases are not run.  Never taken on a tree where expand() terminates.
+                clause.stopped_early = True
+                pool.terminate()
+                break
     rows = []
     for cls in sorted(classes):
         per = classes[cls]
